@@ -486,6 +486,132 @@ void run_spd(const Value& plan, Result& r)
             r.probe("line_blocks_checked", 2);
         }
     }
+    // the line blocks the LIBRARY's smoothers factorise: with x = 0 and rhs = e_q (q on the line) one sweep returns, on
+    // that line, column q of the inverse of the block it factorised (every other line sees zero data before it, and
+    // no later line writes this one).  The inverse restricted to the line's non-Dirichlet unknowns (for the extrapolated
+    // smoothers: its fine-only nodes) must be symmetric and positive definite.
+    if (n <= 1600) {
+        Rng g3(sim::mix(in.seed_x, 9));
+        const int which  = (int)g3.below(4); // give / take / extrapolated give / extrapolated take
+        const bool ex    = which >= 2, give = which % 2 == 0;
+        const int op     = ex ? (give ? OP_EXSM_GIVE : OP_EXSM_TAKE) : (give ? OP_SM_GIVE : OP_SM_TAKE);
+        const int nc     = g.numberSmootherCircles();
+        std::string why;
+        if (op_admissible(b, op, in.level, &why) && (!ex || in.level == 0) && tag.empty()) {
+            // a circle (biased to the first / last ones of the section) or a radial line
+            const bool circle = nc > 0 && g3.chance(0.6);
+            std::vector<std::pair<int, int>> line; // (i_r, i_theta)
+            if (circle) {
+                static const int pick[] = {0, 1, -1, -2, -3};
+                int c = pick[g3.below(5)];
+                int i = c >= 0 ? std::min(c, nc - 1) : std::max(0, nc + c);
+                if (g3.chance(0.25))
+                    i = (int)g3.below((uint64_t)nc);
+                for (int j = 0; j < g.ntheta(); j++)
+                    line.push_back({i, j});
+            }
+            else {
+                int j = (int)g3.below((uint64_t)g.ntheta());
+                for (int i = nc; i < g.nr(); i++)
+                    line.push_back({i, j});
+            }
+            std::vector<std::pair<int, int>> idx;
+            for (auto& q : line) {
+                const bool dir  = q.first == g.nr() - 1 || (q.first == 0 && spec.dirbc);
+                const bool coarse_node = q.first % 2 == 0 && q.second % 2 == 0;
+                if (!dir && !(ex && coarse_node))
+                    idx.push_back(q);
+            }
+            const int k = (int)idx.size();
+            if (k >= 1 && k <= 72) {
+                std::vector<long double> Binv((size_t)k * k, 0.0L);
+                Vector<double> xx(n), ff(n), tmp(n);
+                Level& lev = *b.levels[in.level].level;
+                {
+                    SimRun sr(plan.at("sim"), r);
+                    std::unique_ptr<SmootherGive> sg;
+                    std::unique_ptr<SmootherTake> st;
+                    std::unique_ptr<ExtrapolatedSmootherGive> eg;
+                    std::unique_ptr<ExtrapolatedSmootherTake> et;
+                    if (which == 0)
+                        sg = std::make_unique<SmootherGive>(g, lev.levelCache(), *b.prob.geometry, *b.prob.coeff, spec.dirbc, spec.T);
+                    else if (which == 1)
+                        st = std::make_unique<SmootherTake>(bf.grid(in.level), bf.levels[in.level].cache(), *bf.prob.geometry,
+                                                            *bf.prob.coeff, spec.dirbc, spec.T);
+                    else if (which == 2)
+                        eg = std::make_unique<ExtrapolatedSmootherGive>(g, lev.levelCache(), *b.prob.geometry, *b.prob.coeff,
+                                                                        spec.dirbc, spec.T);
+                    else
+                        et = std::make_unique<ExtrapolatedSmootherTake>(bf.grid(in.level), bf.levels[in.level].cache(),
+                                                                        *bf.prob.geometry, *bf.prob.coeff, spec.dirbc, spec.T);
+                    for (int c = 0; c < k; c++) {
+                        assign(xx, 0.0);
+                        assign(ff, 0.0);
+                        fill_junk(tmp, 3, 1);
+                        ff[g.index(idx[c].first, idx[c].second)] = 1.0;
+                        if (sg)
+                            sg->smoothing(xx, ff, tmp);
+                        else if (st)
+                            st->smoothing(xx, ff, tmp);
+                        else if (eg)
+                            eg->extrapolatedSmoothing(xx, ff, tmp);
+                        else
+                            et->extrapolatedSmoothing(xx, ff, tmp);
+                        for (int a = 0; a < k; a++)
+                            Binv[(size_t)a * k + c] = xx[g.index(idx[a].first, idx[a].second)];
+                    }
+                }
+                static const char* sname[] = {"smoother_give", "smoother_take", "exsmoother_give", "exsmoother_take"};
+                const std::string where = fmt("%s %s %d (%d unknowns); %s", sname[which], circle ? "circle i_r =" : "radial line i_theta =",
+                                              circle ? line[0].first : line[0].second, k, r.signature.c_str());
+                long double mx = 0, asym = 0;
+                bool finite    = true;
+                for (int a = 0; a < k; a++)
+                    for (int c = 0; c < k; c++) {
+                        finite = finite && std::isfinite((double)Binv[(size_t)a * k + c]);
+                        mx     = std::max(mx, std::fabs(Binv[(size_t)a * k + c]));
+                        asym   = std::max(asym, std::fabs(Binv[(size_t)a * k + c] - Binv[(size_t)c * k + a]));
+                    }
+                r.probe(std::string("factorised_block_checked:") + sname[which]);
+                r.probe(circle ? "factorised_circle_block" : "factorised_radial_block");
+                if (!finite)
+                    r.fail(fmt("C05.factorised_block_not_finite:%s", sname[which]), where);
+                else {
+                    r.maxim("factorised_block_asymmetry_rel", (double)(asym / (mx + 1e-300L)));
+                    if (asym > 1e-7L * mx)
+                        r.fail(fmt("C05.factorised_block_not_symmetric:%s", sname[which]),
+                               fmt("inverse block asymmetry %.3Lg of %.3Lg; %s", asym, mx, where.c_str()));
+                    // Cholesky of the symmetrised inverse
+                    std::vector<long double> M((size_t)k * k);
+                    for (int a = 0; a < k; a++)
+                        for (int c = 0; c < k; c++)
+                            M[(size_t)a * k + c] = 0.5L * (Binv[(size_t)a * k + c] + Binv[(size_t)c * k + a]);
+                    bool pd = true;
+                    long double worst = 0;
+                    for (int j = 0; j < k && pd; j++) {
+                        long double d = M[(size_t)j * k + j];
+                        for (int p2 = 0; p2 < j; p2++)
+                            d -= M[(size_t)j * k + p2] * M[(size_t)j * k + p2];
+                        if (!(d > 0)) {
+                            pd    = false;
+                            worst = d;
+                            break;
+                        }
+                        M[(size_t)j * k + j] = std::sqrt(d);
+                        for (int i = j + 1; i < k; i++) {
+                            long double sacc = M[(size_t)i * k + j];
+                            for (int p2 = 0; p2 < j; p2++)
+                                sacc -= M[(size_t)i * k + p2] * M[(size_t)j * k + p2];
+                            M[(size_t)i * k + j] = sacc / M[(size_t)j * k + j];
+                        }
+                    }
+                    if (!pd)
+                        r.fail(fmt("C05.factorised_block_not_positive_definite:%s", sname[which]),
+                               fmt("Cholesky pivot %.3Lg (largest entry %.3Lg); %s", worst, mx, where.c_str()));
+                }
+            }
+        }
+    }
 }
 
 /* ======================================================================================================== */
